@@ -402,6 +402,14 @@ def mol_graph(rep):
     ok = bool(cs) and all(is_const(kwarg(c, "use_h_count") or ast.Constant(False), True) for c in cs)
     rep.ob("O10.3", "R3b", gs, ok, [norm(c)[:60] for c in cs], "graph_to_smi always restores the stored hydrogen counts")
     sg = rep.f(CONV, "smiles_to_graph")
+    # "sanitisable" is defined by RDKit's own pipeline: Chem.SanitizeMol(mol) with its default operations in its own order
+    sans = [c for c in walk_local(sg.node) if isinstance(c, ast.Call) and call_name(c) == "SanitizeMol"]
+    rep.need("R3b", len(sans), 1, "Chem.SanitizeMol in smiles_to_graph")
+    for c in sans:
+        ops = kwarg(c, "sanitizeOps") or (c.args[1] if len(c.args) > 1 else None)
+        okops = ops is None or norm(ops) in ("Chem.SANITIZE_ALL", "Chem.SanitizeFlags.SANITIZE_ALL")
+        rep.ob("O10.3", "R3b", sg, okops, c, "the molecule is sanitised by RDKit's full default pipeline in one call: running a subset of the stages, or the stages in another "
+               "order (e.g. the valence check before the clean-up of hypervalent nitro / N-oxide notation), rejects molecules that are sanitisable", node=c)
     dn = default_of(sg, "node_attrs")
     try:
         keep = set(const(dn))
